@@ -179,6 +179,46 @@ class C06(Prop):
                 rng.shuffle(b); rng.shuffle(h4)
             yield {"board": b, "h4": h4, "h2": h2}
 
+    def exhaustive(self, tier, shard, nshards):
+        """thorough: ALL suit-free Omaha rank patterns (board rank multiset x hand rank multiset, at most four of a
+        rank in total; 10,995,985 of them), suits assigned so that no three board cards share a suit (no flush, no
+        straight flush possible).  Only with VERIF_C06_FULL=1 (about 25 min on 14 cores); otherwise every 16th pattern."""
+        if tier != "thorough":
+            return
+        import os
+        stride = 1 if os.environ.get("VERIF_C06_FULL") == "1" else 16
+        idx = -1
+        for bm in itertools.combinations_with_replacement(range(13), 5):
+            bc = [0] * 13
+            for r in bm:
+                bc[r] += 1
+            if max(bc) > 4:
+                continue
+            for hm in itertools.combinations_with_replacement(range(13), 4):
+                ok = True
+                for r in set(hm):
+                    if bc[r] + hm.count(r) > 4:
+                        ok = False; break
+                if not ok:
+                    continue
+                idx += 1
+                if idx % stride != 0 or (idx // stride) % nshards != shard:
+                    continue
+                used = {}
+                cnt = [0, 0, 0, 0]
+                board = []
+                for r in bm:
+                    av = [x for x in range(4) if x not in used.setdefault(r, set())]
+                    x = min(av, key=lambda y: cnt[y])
+                    used[r].add(x); cnt[x] += 1
+                    board.append(RANKS[r] + SUITS[x])
+                hand = []
+                for r in hm:
+                    av = [x for x in range(4) if x not in used.setdefault(r, set())]
+                    x = av[0]; used[r].add(x)
+                    hand.append(RANKS[r] + SUITS[x])
+                yield {"board": board, "h4": hand, "h2": hand[:2], "_nobrute": True}
+
     def impl(self, case):
         def run(f, *a):
             try:
@@ -186,6 +226,9 @@ class C06(Prop):
             except Exception as e:
                 return "!" + type(e).__name__
         b, h4, h2 = list(case["board"]), list(case["h4"]), list(case["h2"])
+        if case.get("_nobrute"):   # exhaustive scope: the optimised evaluator against model and spec only
+            return {"fast": run(self.ou.get_hand_strength_fast, b, h4), "brute": None,
+                    "holdem": run(self.hu.get_hand_strength_fast, b, h2), "hbrute": None}
         return {"fast": run(self.ou.get_hand_strength_fast, b, h4), "brute": run(self.ob.brute_force_omaha_hi_rank, b, h4),
                 "holdem": run(self.hu.get_hand_strength_fast, b, h2), "hbrute": run(self.hb.brute_force_holdem_rank, b, h2)}
 
@@ -196,11 +239,11 @@ class C06(Prop):
         m = mo["out"][0]
         why = []; agree = True; holds = True
         for k, mk in (("fast", "fast"), ("brute", "brute"), ("holdem", "holdem"), ("hbrute", "holdem")):
-            if io[k] != m[mk]:
+            if io[k] is not None and io[k] != m[mk]:
                 agree = False; why.append(f"{k}: impl {io[k]} model {m[mk]}")
         for k, sk, what in (("fast", "ospec", "optimised Omaha"), ("brute", "ospec", "brute-force Omaha"),
                             ("holdem", "hspec", "Hold'em"), ("hbrute", "hspec", "brute-force Hold'em")):
-            if io[k] != m[sk]:
+            if io[k] is not None and io[k] != m[sk]:
                 holds = False
                 why.append(f"{what} strength of board {case['board']} hand {case['h4'] if 'Omaha' in what else case['h2']} is {io[k]}, "
                            f"the best legal five-card hand has key {m[sk]}")
